@@ -92,6 +92,12 @@ def is_mutually_unbiased_basis(vectors: list[np.ndarray | list[float | Any]]) ->
 
     num_bases = num_vectors // dim
 
+    # Each block of `dim` vectors has to be an orthonormal basis.
+    for i in range(num_bases):
+        basis = np.array([np.ravel(vectors[i * dim + k]) for k in range(dim)])
+        if not np.allclose(basis.conj() @ basis.T, np.identity(dim)):
+            return False
+
     # Check the inner product between vectors from different bases.
     for i in range(num_bases):
         for j in range(i + 1, num_bases):
